@@ -178,7 +178,7 @@ def run(ctx):
         def rndm():
             while True:
                 m_ = np.array([[ctx.rng.randint(0, 1) for _ in range(c_)] for _ in range(r_)])
-                if 0 < m_.sum() < r_ * c_:
+                if swappable(m_):      # without a checkerboard the function legitimately never returns for k >= 1
                     return m_
         a1, a2 = rndm(), rndm(); sd_ = ctx.rng.randint(0, 10**6); k_ = ctx.rng.randint(0, 3)
         buf = a1.copy(); ra = guarded(utils.permute_incidence_fixed_sums, buf, k_, sd_, secs=20); buf[...] = a2
